@@ -409,7 +409,10 @@ fn valid_ext(r: &mut Rng) -> Vec<u8> {
         _ => valid_xprv(r)[..64].to_vec(),
     }
 }
-fn valid_legacy(r: &mut Rng) -> Vec<u8> { let mut v = r.bytes(96); v[0] &= 0xf8; v[31] = (v[31] & 0x1f) | 0x40; v }
+fn valid_legacy(r: &mut Rng) -> Vec<u8> {
+    // half of them NOT clamped (any scalar below 2^255 is accepted by the library and must sign verifiably)
+    let mut v = r.bytes(96); if r.chance(1, 2) { v[0] &= 0xf8; v[31] = (v[31] & 0x1f) | 0x40; } else { v[31] &= 0x7f; } v
+}
 fn idx(r: &mut Rng) -> u32 {
     const E: [u32; 12] = [0, 1, 2, 44, 1852, 0x7fff_ffff, 0x8000_0000, 0x8000_0001, 0x8000_0000 + 1852, 0x8000_0000 + 1815, u32::MAX - 1, u32::MAX];
     match r.below(4) { 0 => *r.pick(&E), 1 => r.below(1 << 31) as u32, 2 => (r.below(1 << 31) as u32) | 0x8000_0000, _ => r.below(50) as u32 }
@@ -485,6 +488,69 @@ fn sequences(r: &mut Rng) -> Vec<String> {
             format!("enc3 {} {} {} {}", hexs(&pw1), hexs(&s2), hexs(&n1), hexs(&d)), format!("enc3 {} {} {} {}", hexs(&pw1), hexs(&s1), hexs(&n2), hexs(&d)),
             format!("enc3 {} {} {} {}", hexs(&pw1), hexs(&s1), hexs(&n1), hexs(&d)), format!("dec3 {} {}", hexs(&pw1), hexs(&c11[..c11.len().max(61) - 1])),
             format!("dec3 {} {}", hexs(&pw1), hexs(&c11)),
+        ]));
+    }
+    // ---- consecutive calls whose arguments are RELATED by prefix / extension / one-byte change / length change ----
+    let flip = |b: &[u8], i: usize| { let mut x = b.to_vec(); if !x.is_empty() { let j = i % x.len(); x[j] ^= 1; } x };
+    let ext = |b: &[u8], e: u8| { let mut x = b.to_vec(); x.push(e); x };
+    { // passwords: prefix, extension, empty, zero-extension (HMAC pads its key with zeros: the SAME key), one byte changed
+        let pwl = *r.pick(&[2usize, 8, 9, 16]); let pw = { let mut p = r.bytes(pwl); let l = p.len() - 1; if p[l] == 0 { p[l] = 1; } p };
+        let (s, n) = (r.bytes(32), r.bytes(12)); let dl = *r.pick(&[0usize, 1, 24]); let d = r.bytes(dl);
+        let cont = |pw: &[u8], s: &[u8], n: &[u8]| { let k = prim::pbkdf2_sha512(pw, s, 19162, 32); let (c, t) = prim::aead_enc(&k, n, &d); [s.to_vec(), n.to_vec(), t, c].concat() };
+        let c = cont(&pw, &s, &n);
+        let dec = |p: &[u8], c: &[u8]| format!("dec3 {} {}", hexs(p), hexs(c));
+        let enc = |p: &[u8], s: &[u8], n: &[u8]| format!("enc3 {} {} {} {}", hexs(p), hexs(s), hexs(n), hexs(&d));
+        let half = &pw[..pw.len() / 2];
+        v.push(seq("related-passwords", vec![
+            enc(&pw, &s, &n), dec(&pw, &c), dec(half, &c), dec(&pw, &c), dec(&ext(&pw, 0x31), &c), dec(&[], &c), dec(&pw, &c), dec(&pw[..pw.len() - 1], &c),
+            dec(&ext(&pw, 0), &c), dec(&ext(&ext(&pw, 0), 0), &c), dec(&flip(&pw, 0), &c), dec(&flip(&pw, pw.len() - 1), &c), dec(&pw, &c),
+            enc(half, &s, &n), enc(&ext(&pw, 0x31), &s, &n), enc(&ext(&pw, 0), &s, &n), enc(&pw, &s, &n), dec(&pw[1..], &c), dec(&pw, &c),
+        ]));
+        // salts / nonces related by one byte, by prefix, by extension (hex inputs of different lengths); containers of related salts in a row
+        let (s2, n2) = (flip(&s, 31), flip(&n, 0));
+        let (c2, c3) = (cont(&pw, &s2, &n), cont(&pw, &s, &n2));
+        v.push(seq("related-salts", vec![
+            enc(&pw, &s, &n), enc(&pw, &s2, &n), enc(&pw, &s[..31], &n), enc(&pw, &ext(&s, 0), &n), enc(&pw, &s, &n[..11]), enc(&pw, &s, &ext(&n, 0)), enc(&pw, &s, &n2),
+            enc(&pw, &s, &n), dec(&pw, &c), dec(&pw, &c2), dec(&pw, &c3), dec(&pw, &c), dec(&pw, &[s2.clone(), c[32..].to_vec()].concat()),
+            dec(&pw, &[s.clone(), n2.clone(), c[44..].to_vec()].concat()), dec(&pw, &c[..c.len().max(61) - 1]), dec(&pw, &ext(&c, 0)), dec(&pw, &c),
+            format!("dec3 {} {}", th(&hex::encode(&pw)[..2 * pw.len() - 1]), hexs(&c)), format!("dec3 {} {}", th(&format!("{}0", hex::encode(&pw))), hexs(&c)), dec(&pw, &c),
+        ]));
+    }
+    { // derivation: neighbouring indices, hardened twin, path prefix / extension, parent with one byte of key or chain code changed
+        let k = valid_xprv(r); let i = soft_idx(r) & 0x7fff_fffe; let j = soft_idx(r);
+        let kc = flip(&k, 64 + (r.below(32) as usize)); let kk = { let mut x = k.clone(); x[5] ^= 0x10; x };
+        let (p, pc) = (prim::xprv_public(&k), prim::xprv_public(&kc)); let pk1 = flip(&p, 3);
+        v.push(seq("related-derive", vec![
+            der(&k, &[i]), der(&k, &[i + 1]), der(&k, &[i | 0x8000_0000]), der(&k, &[i]), der(&k, &[i, j]), der(&k, &[i]), der(&k, &[]), der(&kc, &[i]), der(&kk, &[i]), der(&k, &[i]),
+            pder(&p, &[i]), pder(&p, &[i + 1]), pder(&pc, &[i]), pder(&pk1, &[i]), pder(&p, &[i, j]), pder(&p, &[i]), pder(&p[..63], &[i]), pder(&p, &[i]),
+            format!("bip39 {} {}", hx(&k[..16]), hx(&k[16..20])), format!("bip39 {} {}", hx(&k[..16]), hx(&k[16..19])), format!("bip39 {} {}", hx(&k[..15]), hx(&k[16..20])),
+            format!("bip39 {} {}", hx(&k[..16]), hx(&k[16..20])),
+        ]));
+    }
+    { // text decoders: the same text damaged, truncated, extended, re-cased, under the sibling HRP, then again unchanged
+        let key = valid_ext(r); let u5 = prim::b32_to_base32(&key);
+        let s = prim::b32_encode("ed25519e_sk", &u5).unwrap(); let sn = prim::b32_encode("ed25519_sk", &u5).unwrap();
+        let s32 = prim::b32_encode("ed25519_sk", &prim::b32_to_base32(&key[..32])).unwrap();
+        let dmg = { let mut c: Vec<char> = s.chars().collect(); let i = c.len() - 3; c[i] = if c[i] == 'q' { 'p' } else { 'q' }; c.into_iter().collect::<String>() };
+        let h = hex::encode(&key);
+        v.push(seq("related-texts", vec![
+            format!("dec 1 2 {}", th(&s)), format!("dec 1 2 {}", th(&dmg)), format!("dec 1 2 {}", th(&s[..s.len() - 1])), format!("dec 1 2 {}", th(&format!("{}q", s))),
+            format!("dec 1 2 {}", th(&s.to_uppercase())), format!("dec 1 2 {}", th(&sn)), format!("dec 0 2 {}", th(&s32)), format!("dec 1 2 {}", th(&s)), format!("dec 4 2 {}", th(&s)),
+            format!("dec 1 1 {}", th(&h)), format!("dec 1 1 {}", th(&h[..h.len() - 2])), format!("dec 1 1 {}", th(&h[..64])), format!("dec 1 1 {}", th(&format!("{}00", h))),
+            format!("dec 1 1 {}", th(&h[..h.len() - 1])), format!("dec 1 1 {}", th(&h.to_uppercase())), format!("dec 1 1 {}", th(&h)),
+            format!("dec 7 2 {}", th(&prim::b32_encode("hash", &prim::b32_to_base32(&key[..28])).unwrap())), format!("dec 7 2 {}", th(&prim::b32_encode("hash", &prim::b32_to_base32(&key[..29])).unwrap())),
+            format!("dec 7 2 {}", th(&prim::b32_encode("hash", &prim::b32_to_base32(&key[..28])).unwrap())),
+        ]));
+    }
+    { // signing: message prefixes / extensions / one byte changed, key with one byte changed, in a row under the same key
+        let k = r.bytes(32); let e = valid_ext(r); let m = r.bytes(33);
+        let sg = |tk: u8, k: &[u8], m: &[u8], m2: &[u8], k2: &[u8]| format!("sign {} {} {} {} {}", tk, hx(k), hx(m), hx(m2), hx(k2));
+        let e2 = { let mut x = e.clone(); x[40] ^= 1; x };
+        v.push(seq("related-sign", vec![
+            sg(0, &k, &m, &m[..32], &flip(&k, 7)), sg(0, &k, &m[..32], &m, &k), sg(0, &k, &ext(&m, 0), &m, &flip(&k, 0)), sg(0, &k, &[], &[0], &k), sg(0, &k, &m, &flip(&m, 5), &k),
+            sg(1, &e, &m, &m[..32], &e2), sg(1, &e2, &m, &m, &e), sg(1, &e, &m[..1], &m[..2], &e), sg(1, &e, &m, &ext(&m, 0), &e),
+            format!("wit 0 {} {} ~ ~", hx(&m[..32]), hx(&k)), format!("wit 0 {} {} ~ ~", hx(&flip(&m[..32], 0)), hx(&k)), format!("wit 0 {} {} ~ ~", hx(&m[..32]), hx(&k)),
+            format!("pkhash {}", hx(&prim::ed_keypair_pk(&k))), format!("pkhash {}", hx(&flip(&prim::ed_keypair_pk(&k), 31))), format!("pkhash {}", hx(&prim::ed_keypair_pk(&k))),
         ]));
     }
     v
